@@ -195,10 +195,25 @@ pub fn graph_json(n: &dyn Namer, g: &ModuleGraph) -> Value {
   let mut slots = serde_json::Map::new();
   let mut sch = serde_json::Map::new();
   let ctx = std::cell::RefCell::new(std::collections::BTreeSet::new());
+  // .json targets all of whose importers say `with { type: "json" }` are admitted whatever the context
+  let mut json_attr_only: std::collections::HashMap<String, bool> = Default::default();
+  for m in g.modules() {
+    for d in m.dependencies().values() {
+      let has_attr = d.maybe_attribute_type.as_deref() == Some("json");
+      for r in [&d.maybe_code, &d.maybe_type] {
+        if let Some(s) = r.maybe_specifier() {
+          let e = json_attr_only.entry(s.to_string()).or_insert(true);
+          *e = *e && has_attr;
+        }
+      }
+    }
+  }
   let note = |sch: &mut serde_json::Map<String, Value>, u: &ModuleSpecifier| {
     sch.insert(n.id(u.as_str()), Value::String(u.scheme().to_string()));
-    // specifiers whose admission depends on the first-load context: .json and unknown media types
-    if matches!(MediaType::from_specifier(u), MediaType::Json | MediaType::Unknown) {
+    // specifiers whose admission depends on the first-load context: unknown media types, and .json unless every
+    // import of it carries the json attribute
+    let mt = MediaType::from_specifier(u);
+    if mt == MediaType::Unknown || (mt == MediaType::Json && !json_attr_only.get(u.as_str()).copied().unwrap_or(false)) {
       ctx.borrow_mut().insert(n.id(u.as_str()));
     }
   };
